@@ -191,6 +191,11 @@ def replay(contract, label, model, note=""):
     elif name == "reset":
         tries.append(dict(op="reset", fill=0))
         tries.append(dict(op="reset", fill=None))
+    elif name == "__init__":
+        fv, nv = ctor_value_cases()
+        if fv:
+            return {"reproduced": True, "failure": fv[0], "concrete": fv[0]["input"], "search": {"points_tried": nv}}
+        return {"reproduced": False, "search": {"points_tried": nv}}
     elif name == "defaults":
         # the defaults contract: every operation at its documented default arguments (explicitly passed here)
         L = max(1, min(int(g("L", 1)), N))
@@ -265,6 +270,10 @@ def tries_for(name, contract, N):
 
 def replay_native(rp):
     inp = dict(rp["input"])
+    if rp.get("what", "").startswith("C01/ctor_value"):
+        fv, _ = ctor_value_cases()
+        hit = [f for f in fv if f["what"] == rp.get("what")]
+        return {"reproduced": bool(hit), "failure": hit[0] if hit else None}
     if rp.get("what", "").startswith("C01/push_uninit"):
         st = inp["storage"]
         f = push_uninit(inp["N"], getattr(torch, inp["obs_dtype"].split(".")[-1]), "none" if st == "none" else getattr(torch, st.split(".")[-1]))
@@ -277,6 +286,36 @@ def replay_native(rp):
             inp[k] = torch.tensor(v)
     f = run_op(N, ptr, op, dtype=dt, **inp)
     return {"reproduced": f is not None, "failure": f}
+
+
+def ctor_value_cases():
+    """records constructed WITH an initial observation (the way synapses build their histories): every slot holds it, and
+    after one push - in place or not - only the newest slot changed"""
+    import inferno
+
+    fails, n = [], 0
+    for N in (2, 3, 5):
+        for inplace in (True, False):
+            for kind in ("tensor", "parameter"):
+                n += 1
+                m = inferno.Module()
+                v0 = torch.tensor([1.5, -2.0])
+                val = torch.nn.Parameter(v0.clone(), False) if kind == "parameter" else v0.clone()
+                rec = inferno.RecordTensor(m, "x", 1.0, float(N - 1), val, inclusive=True)
+                inp = dict(N=N, inplace=inplace, storage=kind)
+                if rec.recordsz != N or any(not torch.equal(rec.read(k + 1), v0) for k in range(N)):
+                    fails.append({"what": "C01/ctor_value/slots_hold_initial_observation", "input": inp, "expected": v0.tolist(), "actual": [rec.read(k + 1).tolist() for k in range(N)]})
+                    continue
+                obs = torch.tensor([7.0, 9.0])
+                rec.push(obs, inplace)
+                got = [rec.read(k + 1) for k in range(N)]
+                if not torch.equal(got[0], obs) or any(not torch.equal(g, v0) for g in got[1:]):
+                    fails.append({"what": "C01/ctor_value/push_changes_only_the_newest_slot", "input": inp, "expected": [obs.tolist()] + [v0.tolist()] * (N - 1), "actual": [g.tolist() for g in got]})
+    uniq = []
+    for f in fails:
+        if not any(u["what"] == f["what"] for u in uniq):
+            uniq.append(f)
+    return uniq, n
 
 
 def sweep(tier="quick", seed=0, unsupported=()):
@@ -313,4 +352,7 @@ def sweep(tier="quick", seed=0, unsupported=()):
                 f = push_uninit(N, od, st)
                 if f is not None and not any(x["what"] == f["what"] for x in failures):
                     failures.append(f)
-    return {"standins": [{"function": "RecordTensor.* vs list model (real torch)", "domain": f"N<={Nmax}, all ptr, offsets [0,2N], lengths [1,N], fwd/bwd, scalar/tensor offset, inplace/not; dtype matrix 4x4; first push into none/empty storage", "cases": cases, "proved": False, "label": "bounded"}], "failures": failures}
+    fv, nv = ctor_value_cases()
+    failures.extend(fv)
+    cases += nv
+    return {"standins": [{"function": "records constructed with an initial observation (independent slots); RecordTensor.* vs list model (real torch)", "domain": f"N<={Nmax}, all ptr, offsets [0,2N], lengths [1,N], fwd/bwd, scalar/tensor offset, inplace/not; dtype matrix 4x4; first push into none/empty storage", "cases": cases, "proved": False, "label": "bounded"}], "failures": failures}
